@@ -41,6 +41,8 @@ impl fmt::Display for Id {
 struct Resolver {
     interned: BTreeSet<Rc<String>>,
     input: BTreeMap<Id, Rc<Def>>,
+    /// The long name of a base unit, and the name it is defined under.
+    long_names: BTreeMap<Id, Id>,
     sorted: Vec<Id>,
     unmarked: BTreeSet<Id>,
     temp_marks: BTreeSet<Id>,
@@ -136,6 +138,11 @@ impl Resolver {
     }
 
     fn visit(&mut self, id: &Id) {
+        // A base unit's long name comes into being with the base unit, so
+        // what refers to `meter` depends on the definition `m !meter`.
+        if let Some(base_unit) = self.long_names.get(id).cloned() {
+            return self.visit(&base_unit);
+        }
         if self.temp_marks.get(id).is_some() {
             self.errors
                 .push(format!("Unit {} has a dependency cycle", id));
@@ -358,6 +365,7 @@ pub(crate) fn load_defs(ctx: &mut Context, defs: Defs) -> Vec<String> {
     let mut resolver = Resolver {
         interned: BTreeSet::new(),
         input: BTreeMap::new(),
+        long_names: BTreeMap::new(),
         sorted: vec![],
         unmarked: BTreeSet::new(),
         temp_marks: BTreeSet::new(),
@@ -382,6 +390,11 @@ pub(crate) fn load_defs(ctx: &mut Context, defs: Defs) -> Vec<String> {
                 namespace: Namespace::Unit,
                 name: long_name,
             };
+            let short_id = Id {
+                namespace: Namespace::Unit,
+                name: resolver.intern(&name),
+            };
+            resolver.long_names.insert(long_id.clone(), short_id);
             if resolver
                 .input
                 .insert(long_id.clone(), def.clone())
